@@ -145,6 +145,8 @@ namespace c12
    template< typename R > struct act_t : std::conditional_t< std::is_base_of_v< thrower, R >, act_tag_void< R >, nothing< R > > {};
    // family "5": std::runtime_error by predicate on (rule, begin, end), on every rule that is control-enabled in the
    // grammar itself; rules hidden from the control (internal::seq ...) carry no action, as in user code
+   // family "v": bool apply vetoing by vh::veto_pred( rule, begin, end ) on every rule that is control-enabled in the grammar itself
+   template< typename R > struct act_v : std::conditional_t< TAO_PEGTL_NAMESPACE::internal::enable_control< R >, vh::b_apply_bool< 3, R >, nothing< R > > {};
    template< typename R > struct act_5 : std::conditional_t< TAO_PEGTL_NAMESPACE::internal::enable_control< R >, vh::b_apply_throw_std< 5, R >, nothing< R > > {};
 
    template< typename R >
